@@ -429,8 +429,10 @@ def c11_cases(tier):
 
 def c10_cases(tier):
     """every schema value maps to its own variant and back to exactly that name; anything else goes to Other"""
-    sets = [["where", "A", "b_c", "match"], ["type", "Plain"], ["X"]] if tier == "quick" else \
-        [["where", "A", "b_c", "match"], ["type", "Plain"], ["X"], ["async", "await", "dyn", "try", "loop"], ["in", "fn", "struct", "crate", "enum", "extern"]]
+    # (a value next to one that extends it, keywords among them: the order of the identifiers is not the order of the names)
+    sets = [["where", "A", "b_c", "match"], ["type", "Plain"], ["X"], ["INACTIVE", "IN_PROGRESS", "done", "in"], ["loop", "loopBack", "as", "asIs", "inProgress", "in"]] if tier == "quick" else \
+        [["where", "A", "b_c", "match"], ["type", "Plain"], ["X"], ["INACTIVE", "IN_PROGRESS", "done", "in"], ["loop", "loopBack", "as", "asIs", "inProgress", "in"],
+         ["async", "await", "dyn", "try", "loop"], ["in", "fn", "struct", "crate", "enum", "extern"]]
     # values that differ only in letter case or in underscores are different GraphQL names: each has its own variant (naming option none;
     # under rust naming their identifiers would coincide, which is the schema author's problem, not a case of this family)
     twins = [["b", "B", "kb", "KB"], ["in", "not_in", "notIn", "NOT_IN", "eq"], ["a_b", "aB", "AB", "A_B", "ab"]]
@@ -454,6 +456,12 @@ def c10_cases(tier):
                     return "the variant a value deserializes to does not serialize back to that value"
                 if len(set(v for (v, _) in ser)) != len(vals):
                     return "two schema values share one variant"
+                # each value is written by ITS variant: the identifier is the value's name up to letter case, underscores and the keyword escape
+                def flat(x):
+                    return re.sub(r"^r#", "", x).replace("_", "").lower()
+                for (v, w) in ser:
+                    if flat(v) != flat(w):
+                        return "variant `%s` is written as \"%s\" (values %s, normalization %s): a value is paired with another value's variant" % (v, w, vals, nz)
                 return None
             yield case, oracle
     # an SDL document with a declaration `enum Placeholder` (no values block) before the enum in use and another enum after it: the field
@@ -1495,9 +1503,18 @@ def c08_cases(tier):
     bad_parse_derive = {"schema_path": good_s, "query_path": unparsable, "options": {"mode": "derive", "struct_name": "Q", "operation_name": "Q"}}
     bad_schema = {"schema_path": os.path.join(d, "c08_missing_schema.graphql"), "query_path": good_q, "options": {"mode": "cli"}}
 
+    # the derive's own way of calling: the query / schema files named in the options as well (the module `include_str!`s them), several
+    # derives over ONE document, a derive whose other options do not parse before a valid one
+    def as_derive(name, **extra):
+        return {"schema_path": good_s, "query_path": good_q, "options": dict({"mode": "derive", "struct_name": name, "operation_name": name, "query_file": good_q}, **extra)}
+    okd = as_derive("Q")
+    okd_rust = as_derive("Q", normalization="rust")
+    nomatch = as_derive("Nope")
+
     def outcome(r):
         return (bool(r.get("ok")), r.get("tokens"), r.get("error"), r.get("panic"))
-    for hist in ([bad, bad], [bad_parse, bad_parse, ok], [bad, ok, bad_derive], [bad_parse, bad_parse_derive, bad_parse], [bad_schema, bad_schema, ok], [bad_derive, bad]):
+    for hist in ([bad, bad], [bad_parse, bad_parse, ok], [bad, ok, bad_derive], [bad_parse, bad_parse_derive, bad_parse], [bad_schema, bad_schema, ok], [bad_derive, bad],
+                 [okd, okd], [ok, okd, okd_rust, okd], [nomatch, okd, nomatch], [okd_rust, okd]):
         def oracle_rep(res, hist=hist):
             if res["exit"] != 0 or not res["out"]:
                 return "process died: %s" % res["stderr"]
